@@ -51,6 +51,7 @@ void gen_common(Plan *p, Rng *g, int tier)
 	p->closer = rng_below(g, 2);
 	p->tz = rng_chance(g, 1, 2) ? 0 : (int64_t)rng_below(g, 5);
 	p->extra_roots = rng_chance(g, 1, 4) ? 1 + (int64_t)rng_below(g, 3) : 0;     /* trust bundle of 1..4 anchors */
+	p->seg_late = rng_chance(g, 1, 4);     /* defects of the data phase are otherwise masked by the handshake failing first */
 }
 
 static int64_t draw_size(Rng *g, int64_t max_bytes)
@@ -180,7 +181,7 @@ void conn_run(const Plan *p, const CredSet *cs, HonestOut *out,
 
 	NetKnobs k;
 	memset(&k, 0, sizeof(k));
-	k.seg_style = (int)p->seg_style; k.max_chunk = (int)p->max_chunk; k.max_lat_ns = p->max_lat_ns;
+	k.seg_style = (int)p->seg_style; k.max_chunk = (int)p->max_chunk; k.max_lat_ns = p->max_lat_ns; k.seg_late = (int)p->seg_late;
 	k.short_write = (int)p->short_write; k.eagain = (int)p->eagain; k.capacity = (size_t)p->capacity;
 	Conn *c = net_conn_new(&k, (uint64_t)p->net_seed);
 	c->interpose = p->interpose || on_record != NULL;
